@@ -89,6 +89,12 @@ CHECKS["C20"] = dict(
     technique="TLA+ interface/verdict model enumerated by TLC; each (definition, edit) pair compiled and compared at run time",
     design="DESIGN.md §5 C20")
 
+CHECKS["C16"] = dict(
+    text="No new model: every behaviour TLC generates from spec/CVec.tla that a C caller can provoke and every behaviour of spec/CArc.tla is replayed with the mutations performed by a C driver (cview/cview.c, compiled with gcc -std=c99 and linked into the adapter) that knows only the published field layouts - vector push/pop/insert/remove/reserve/write/release through {data, len, capacity, drop_fn, reserve_fn} for four element types of different size and alignment, arc clone/release through {instance, clone_fn, drop_fn} - and the resulting state is projected through the Rust API and compared with the specification's expectation step by step (plus allocator ledger). Box release, slice reads/writes, the callback feed loop, iterator advance and the option/result tags are checked differentially against the corresponding Rust operation.",
+    note="Trusted: TLC (behaviour generation), gcc, the hand-written C declarations (from the property statement). Thorough adds the release build.",
+    technique="TLC-generated behaviours of the runtime specs replayed through a C driver operating the published layouts; differential C-vs-Rust scripts",
+    design="DESIGN.md §5 C16")
+
 NOT_YET = {}
 
 def main():
